@@ -3,7 +3,7 @@ import glob, json, os, re
 import vlib
 
 TARGETS = ["Base/Corr.vo", "Base/Num.vo", "C20/Model.vo", "C20/Corr.vo", "C20/Spec.vo", "C20/SpecTest.vo",
-           "C20/ProofsGuard.vo", "C20/ProofsLoud.vo", "C20/ProofsOk.vo", "C20/ProofsTerm.vo", "C20/Props.vo"]
+           "C20/ProofsGuard.vo", "C20/ProofsLoud.vo", "C20/ProofsOk.vo", "C20/ProofsTerm.vo", "C20/ProofsRefuted.vo", "C20/Props.vo"]
 PROPS = ["C20/Props.v"]
 PROPOSED = os.path.join(vlib.ROOT, "corpus/C20/known_findings_proposed.json")
 
@@ -205,6 +205,23 @@ def term_stage(ctx, binary, fs):
                                                      "true" if exact else "false")))
     for fid, lst in sorted(seen.items()):
         ctx.known_finding(fid, "%d case(s): %s" % (len(lst), ", ".join(lst[:6])))
+    # robustness to timing: an unexplained deadline hit is re-run alone with the long deadline before it counts
+    confirmed = []
+    for r in viol:
+        if r["outcome"] == "deadline" and len(confirmed) < 12:
+            rf = os.path.join(ctx.dir, "recheck_in.json")
+            json.dump({"tcase": r["case"]}, open(rf, "w"))
+            vlib.sh([binary, "--replay", rf, "--out", ctx.dir, "--tier", "thorough"], env=vlib.go_env(), cwd=vlib.ROOT, timeout=120)
+            try:
+                r2 = json.load(open(os.path.join(ctx.dir, "replay_term.json")))["results"][0]
+            except Exception:
+                r2 = r
+            if r2["outcome"] in ("returned", "error") or (r2["outcome"] == "panic" and r["case"]["routine"] in PANIC_IS_LOUD):
+                ctx.notes.append("slow, not hung: %s/%s n=%d returned within the long deadline (%.2fs)" % (
+                    r["case"]["routine"], r["case"]["family"], r["case"]["n"], r2.get("secs", 0)))
+                continue
+        confirmed.append(r)
+    viol = confirmed
     for r in viol[:8]:
         c = r["case"]
         what = {"deadline": "did not return within the deadline", "crash": "crashed",
